@@ -289,6 +289,19 @@ Module InBlockExamples.
   Qed.
   Example bad_plain_result : scan_result cfg_all dstate0 bad_plain = Err E_PLAIN.
   Proof. vm_compute. reflexivity. Qed.
+  (* keys_vals ends on a node boundary after two of three nodes: ids = 3 deltas, two delimiters *)
+  Definition bad_kv : msg :=
+    [table; (2, WMsg [(2, WMsg [(1, WPacked [2; 2; 2]); (8, WPacked [2; 2; 2]); (9, WPacked [2; 2; 2]);
+                                (10, WPacked [1; 2; 0; 0])])])].
+  Example bad_kv_damaged : in_block_damage cfg_all bad_kv.
+  Proof.
+    eapply (IB_dense_keyvals_short cfg_all bad_kv _ _ [2; 2; 2] [1; 2; 0; 0]);
+      [right; left; reflexivity|left; reflexivity|reflexivity|reflexivity|reflexivity|].
+    vm_compute. lia.
+  Qed.
+  Example bad_kv_result : scan_result cfg_all dstate0 bad_kv = Err E_EOF.
+  Proof. vm_compute. reflexivity. Qed.
+
   (* "never inherits": a block WITHOUT a string table decoded by a worker that has just decoded a
      block WITH one (state st1) still fails: the stale table is not consulted *)
   Definition good_block : msg :=
